@@ -97,6 +97,37 @@ theorem and_spec (env : Env) (i : Nat) (a b : Cond) (s : St) (h : s.term i = fal
   simp only [eval, h]
   cases hx : (eval env a s).1 <;> simp
 
+/-- the value in **every** state - in particular after any history of operations (`World.run env ops`), of
+scripted operand changes and of `terminate()` calls on the combination, on its operands or on copies of them (copies
+are the same tree): no hypothesis on the flags.  `or` is true exactly when it has been terminated itself or either
+operand is (the second evaluated in the state the first left, only if the first was false). -/
+theorem or_value (env : Env) (i : Nat) (a b : Cond) (s : St) :
+    (eval env (.or i a b) s).1 = (s.term i || ((eval env a s).1 || (eval env b (eval env a s).2).1)) := by
+  simp only [eval]
+  cases ht : s.term i <;> cases hx : (eval env a s).1 <;> simp
+
+theorem and_value (env : Env) (i : Nat) (a b : Cond) (s : St) :
+    (eval env (.and i a b) s).1 = (s.term i || ((eval env a s).1 && (eval env b (eval env a s).2).1)) := by
+  simp only [eval]
+  cases ht : s.term i <;> cases hx : (eval env a s).1 <;> simp
+
+/-- after any history: the statement above at the state an arbitrary list of operations leaves -/
+theorem or_and_value_after_any_history {α} [PNum α] (env : Env) (i : Nat) (a b : Cond) (w : World α) (ops : List (Op α)) :
+    (eval env (.or i a b) (w.run env ops).st).1 =
+      ((w.run env ops).st.term i || ((eval env a (w.run env ops).st).1 || (eval env b (eval env a (w.run env ops).st).2).1)) ∧
+    (eval env (.and i a b) (w.run env ops).st).1 =
+      ((w.run env ops).st.term i || ((eval env a (w.run env ops).st).1 && (eval env b (eval env a (w.run env ops).st).2).1)) :=
+  ⟨or_value env i a b _, and_value env i a b _⟩
+
+-- three deep, combined *after* terminate() had been requested on an operand (impl 1): and(or(never₀, never₁), always₂)
+-- inside or(never₃, ·) is true; without the request it is false
+example : (eval { pred := fun _ _ => false, clock := fun _ => 0 }
+      (.or 6 (.leaf 3 false .never) (.and 5 (.or 4 (.leaf 0 false .never) (.leaf 1 false .never)) (.leaf 2 false .always)))
+      (terminate (.leaf 1 false .never) {})).1 = true ∧
+    (eval { pred := fun _ _ => false, clock := fun _ => 0 }
+      (.or 6 (.leaf 3 false .never) (.and 5 (.or 4 (.leaf 0 false .never) (.leaf 1 false .never)) (.leaf 2 false .always))) {}).1 = false := by
+  decide
+
 example : (eval { pred := fun _ _ => true, clock := fun _ => 0 } (.or 2 (.leaf 0 false (.pred 0)) (.leaf 1 false (.pred 1))) {}).2.calls 1 = 0 := by
   decide
 
@@ -644,6 +675,67 @@ theorem costConv_first_never (win : Nat) (eps : ℚ) (c : Nat → ℚ) : ¬ Fire
   rintro ⟨_, _, h1, h2⟩
   simp only [Nat.sub_self, avg, mul_zero] at h1 h2
   exact absurd (lt_trans h1 h2) (lt_irrefl _)
+
+/-! ### "changed by less than the relative threshold": negative averages (finding F481)
+
+The property's words, taken literally: report `k` qualifies when `|avgₖ − avgₖ₋₁| < ε·|avgₖ₋₁|` (`FiresAtRel`).
+The code tests `(1−ε)·avgₖ₋₁ < avgₖ < (1+ε)·avgₖ₋₁` (`FiresAt`, what `costConv_spec` is stated with). -/
+
+/-- the literal reading of "the moving average changed by less than the relative threshold" -/
+def FiresAtRel (win : Nat) (eps : ℚ) (c : Nat → ℚ) (k : Nat) : Prop :=
+  1 ≤ k ∧ win ≤ k ∧ |avg win c k - avg win c (k - 1)| < eps * |avg win c (k - 1)|
+
+/-- the part that holds: while the previous average is not negative, the coded test *is* the literal reading -/
+theorem costConv_relative_partial (win : Nat) (eps : ℚ) (c : Nat → ℚ) (k : Nat) (hnn : 0 ≤ avg win c (k - 1)) :
+    FiresAt win eps c k ↔ FiresAtRel win eps c k := by
+  simp only [FiresAt, FiresAtRel, abs_of_nonneg hnn, abs_lt]
+  constructor
+  · rintro ⟨h1, h2, h3, h4⟩; exact ⟨h1, h2, by linarith, by linarith⟩
+  · rintro ⟨h1, h2, h3, h4⟩; exact ⟨h1, h2, by linarith, by linarith⟩
+
+/-- with a negative previous average and `ε ≥ 0` the coded band `((1−ε)·avg, (1+ε)·avg)` is empty: the report can
+never qualify, however little the average moved … -/
+theorem costConv_negative_average_never_fires (win : Nat) (eps : ℚ) (c : Nat → ℚ) (k : Nat) (he : 0 ≤ eps)
+    (hneg : avg win c (k - 1) < 0) : ¬ FiresAt win eps c k := by
+  rintro ⟨_, _, h1, h2⟩
+  nlinarith
+
+/-- … so the full statement fails for the code as it is (F481): window 1, ε = 1/10, every reported cost −1: at the
+second report the average has not changed at all, the literal reading fires, the coded test does not (and by
+`costConv_spec` the condition stays false for ever). -/
+theorem costConv_relative_fails :
+    ¬ (∀ (win : Nat) (eps : ℚ) (c : Nat → ℚ) (k : Nat), FiresAt win eps c k ↔ FiresAtRel win eps c k) := by
+  intro hall
+  have hrel : FiresAtRel 1 (1 / 10) (fun _ => -1) 2 := by
+    refine ⟨by norm_num, by norm_num, ?_⟩
+    rw [avg_window_one, show 2 - 1 = 0 + 1 by norm_num, avg_window_one]
+    norm_num
+  have hf := (hall 1 (1 / 10) (fun _ => -1) 2).mpr hrel
+  refine costConv_negative_average_never_fires 1 (1 / 10) (fun _ => -1) 2 (by norm_num) ?_ hf
+  rw [show 2 - 1 = 0 + 1 by norm_num, avg_window_one]
+  norm_num
+
+-- the same sequence with cost +1 qualifies under both readings
+example : FiresAt 1 (1 / 10) (fun _ => 1) 2 ∧ FiresAtRel 1 (1 / 10) (fun _ => 1) 2 := by
+  have h : FiresAt 1 (1 / 10) (fun _ => 1) 2 := (costConv_window_one (1 / 10) (fun _ => 1) 0).mpr (by norm_num)
+  exact ⟨h, (costConv_relative_partial 1 (1 / 10) (fun _ => 1) 2 (by
+    rw [show 2 - 1 = 0 + 1 by norm_num, avg_window_one]; norm_num)).mp h⟩
+
+/-- `ε = 0` (and any `ε ≤ 0`): both inequalities are strict, no report ever qualifies -/
+theorem costConv_eps_nonpos_never_fires (win : Nat) (eps : ℚ) (c : Nat → ℚ) (k : Nat) (he : eps ≤ 0)
+    (hnn : 0 ≤ avg win c (k - 1)) : ¬ FiresAt win eps c k := by
+  rintro ⟨_, _, h1, h2⟩
+  nlinarith
+
+/-- `ε ≥ 1` with a positive previous average: the lower bound is no constraint for a positive new average; the
+report qualifies iff the average did not grow to `(1+ε)` times its value (window reached) -/
+theorem costConv_eps_ge_one (win : Nat) (eps : ℚ) (c : Nat → ℚ) (k : Nat) (he : 1 ≤ eps)
+    (hp : 0 < avg win c (k - 1)) (hn : 0 < avg win c k) :
+    FiresAt win eps c k ↔ (1 ≤ k ∧ win ≤ k ∧ avg win c k < (1 + eps) * avg win c (k - 1)) := by
+  simp only [FiresAt]
+  constructor
+  · rintro ⟨h1, h2, _, h4⟩; exact ⟨h1, h2, h4⟩
+  · rintro ⟨h1, h2, h4⟩; exact ⟨h1, h2, by nlinarith, h4⟩
 
 /-! ### `timedPlannerTerminationCondition(duration, interval)`: the clamp `[EX over ℚ]` -/
 
